@@ -470,6 +470,21 @@ Fixpoint logs_bytes (evs : list logs_event) : N :=
 (* goroutines started for one request: the parser goroutine, at most one drain goroutine, five doPush calls per
    response without error (each starts at most one goroutine) *)
 Definition goroutines_bound (responses : nat) : nat := 2 + 5 * responses.
+Definition is_some {A : Type} (o : option A) : bool := match o with Some _ => true | None => false end.
+Definition b2n (b : bool) : nat := if b then 1 else 0.
+(* doPush starts a goroutine iff the request and the service are both there *)
+Definition pushes_of (c : ctx) (p : presp) : nat :=
+  b2n (has_ts c && is_some (p_ts p)) + b2n (has_spl c && is_some (p_spl p)) + b2n (has_tags c && is_some (p_tags p))
+  + b2n (has_spans c && is_some (p_spans p)) + b2n (has_prof c && is_some (p_prof p)).
+Fixpoint goroutines_after (c : ctx) (rs : list presp) : nat :=
+  match rs with
+  | [] => 0
+  | p :: r => match p_err p with
+              | Some _ => 1                                   (* the drain goroutine; the handler returns *)
+              | None => pushes_of c p + goroutines_after c r
+              end
+  end.
+Definition goroutines_of (c : ctx) (rs : list presp) : nat := 1 + goroutines_after c rs.   (* 1 = the parser goroutine *)
 
 (* ------------------------------------------------------------------------------------------ *)
 (** * 5. Per-route parser tables: Content-Type dispatch (PusherCtx.DoParse) *)
@@ -490,8 +505,7 @@ Definition dispatch_in_order (order : list (string * string)) (table : list (str
    same parser *)
 Definition table_unambiguous (table : list (string * string)) : bool :=
   forallb (fun a => forallb (fun b =>
-    String.eqb (fst a) (fst b) || String.eqb (snd a) (snd b)
-    || negb (prefix (fst a) (fst b) || prefix (fst b) (fst a))) table) table.
+    String.eqb (snd a) (snd b) || negb (prefix (fst a) (fst b) || prefix (fst b) (fst a))) table) table.
 
 Record route := {
   rt_handler : string;                     (* controller constructor: PushStreamV2 ... *)
